@@ -37,9 +37,9 @@ func accSX(e error) SX {
 	for _, p := range errors.GetAllSafeDetails(e) {
 		det := make([]string, len(p.SafeDetails))
 		for i, s := range p.SafeDetails {
-			det[i] = maskVF(s)
+			det[i] = strings.ReplaceAll(maskVF(s), unkSuffix, "")
 		}
-		sd = append(sd, L(Str(p.OriginalTypeName), L(Str(p.ErrorTypeMark.FamilyName), Str(p.ErrorTypeMark.Extension)), Strs(det)))
+		sd = append(sd, L(Str(p.OriginalTypeName), L(Str(strings.TrimSuffix(p.ErrorTypeMark.FamilyName, unkSuffix)), Str(p.ErrorTypeMark.Extension)), Strs(det)))
 	}
 	root := errors.UnwrapAll(e)
 	var stacks []SX
